@@ -30,6 +30,11 @@ struct Out {
 	explicit Out(FILE* f_ = stdout) : f(f_) { static char buf[1 << 20]; setvbuf(f, buf, _IOFBF, sizeof buf); }
 };
 
+// crash localisation: with UV_MARK=1 every operation is announced (and flushed) before it is executed, so the last
+// "# at" line of an aborted run names the operands that crashed
+inline bool mark_enabled() { static int e = -1; if (e < 0) { const char* v = std::getenv("UV_MARK"); e = (v && *v == '1') ? 1 : 0; } return e == 1; }
+#define UV_MARK(...) do { if (uv::mark_enabled()) { std::printf("# at " __VA_ARGS__); std::printf("\n"); std::fflush(stdout); } } while (0)
+
 inline double bits2double(uint64_t b) { double d; std::memcpy(&d, &b, 8); return d; }
 inline uint64_t double2bits(double d) { uint64_t b; std::memcpy(&b, &d, 8); return b; }
 inline float bits2float(uint32_t b) { float d; std::memcpy(&d, &b, 4); return d; }
